@@ -413,6 +413,17 @@ def child_ready(ci):
     return isa(ci, 'info.BaseKeyInfo') and ci.datatype is not None and key_kinds_ok(ci, default_of(ci))
 
 
+@recursive(['Ref[info.SectionType]', 'int'], 'int')
+def handler_count(t, i):
+    """C16: the number of children of section type t, from index i on, that carry a handler name -
+    each contributes exactly one entry to the handler list when a section of that type is closed."""
+    if i >= len(t._children):
+        return 0
+    if t._children[i][1].handler is not None:
+        return 1 + handler_count(t, i + 1)
+    return handler_count(t, i + 1)
+
+
 # ---- wildcard-key defaults re-normalised under a key type (C10, C11) -------------------------------------------------
 @recursive(['Map[str, MItem]', 'Fun[kt]', 'int', 'Map[str, MItem]'], 'Tuple[int, Map[str, MItem]]')
 def renorm_defaults(raw, kt, i, acc):
